@@ -38,7 +38,7 @@ CHECK = dict(
 MAX_REPORTS = 3
 TARGETS = ["arm", "thumb", "aarch64", "mips", "mipsel", "ppc"]
 OPTS = ["-O0", "-O1", "-O2", "-Os"]
-QUICK = dict(funcs=12, inputs=3, levels=1, gcc_funcs=0, nst=(5, 9))
+QUICK = dict(funcs=20, inputs=4, levels=1, gcc_funcs=0, nst=(5, 9))
 THOROUGH = dict(funcs=160, inputs=5, levels=2, gcc_funcs=8, nst=(5, 11))
 
 
